@@ -404,7 +404,7 @@ def model_eval(ctx, cases, results, tag):
         texts.append(HEADER + ";\n ".join(items) + "].\nEval vm_compute in (mismatches cases).\nEval vm_compute in (unpredicted cases).\n")
         ids_of.append(ids)
     mism, unp = [], []
-    for (rc, so, se), ids in zip(vlib.coq_eval_files(ctx, texts, tag), ids_of):
+    for (rc, so, se), ids in zip(vlib.coq_eval_files(ctx, texts, tag, timeout=900), ids_of):
         two = parse_two_lists(so) if rc == 0 else None
         if two is None:
             return None, f"rc={rc} {se[-600:]} {so[-200:]}"
